@@ -303,6 +303,10 @@ def apply_sections(unit, text, d, fn_name, what):
             # replace an expression by a call of an `idiom_*` helper.  The helper must be an external_body fn of the
             # unit whose body is, textually, the replaced expression (checked in process() once the unit is complete).
             needle, occ = _occurrence(s['arg'])
+            if needle not in text[fh:fe]:
+                # the expression is not there (refactored code): nothing to substitute, Verus sees the code as it is
+                unit.rewrites.append(('subst', what + ': `' + needle + '` absent, skipped', 0))
+                continue
             idx = _find_text(None, text[fh:fe], needle, occ, what) + fh
             call = s['text'].strip()
             mc = re.match(r'^(idiom_\w+)\s*\(', call)
